@@ -134,6 +134,8 @@ func (c *cursorManager) SetCursor(ctx context.Context, streamName, cursorID stri
 		Stream:    cursorsStream,
 		Partition: cursorsPartitionID,
 		AckPolicy: client.AckPolicy_ALL,
+		// Don't check the offset if concurrency control is enabled.
+		ExpectedOffset: -1,
 	})
 	if err != nil {
 		return status.New(codes.Internal, err.Error())
